@@ -10,7 +10,7 @@ from .registry import RULES, Ctx
 # rule modules register themselves on import
 for _m in ("rules_resource", "rules_layout", "rules_cursor", "rules_owner", "rules_dtype",
            "rules_dispatch", "rules_flow", "rules_values", "rules_paths", "rules_thermo",
-           "rules_daqmx", "rules_writer", "rules_index"):
+           "rules_daqmx", "rules_writer", "rules_index", "rules_trunc"):
     try:
         importlib.import_module("." + _m, __package__)
     except ModuleNotFoundError as e:  # module not built yet
